@@ -300,9 +300,11 @@ theorem refs_of_extended (r : Rule) (e : Ext) (h1 : r.rules = none) (h2 : r.cond
     refsOf r = e.leaves.eraseDups := by
   simp [refsOf, h1, h2, Ext.refs]
 
-/-! ## 7. Where the code departs from the property (recorded on the model) -/
+/-! ## 7. Where the code departed from the property before its repair (kept as witnesses on the model: the two
+code shapes are model parameters `Cfg.corrFinTested` / `Cfg.aliasAlways`, read from the live source by the translator;
+`Oblig/C10.lean` demands the repaired shapes) -/
 
-/-- **Finding C10a.**  A referenced *correlation* rule is embedded in finalised (and post-processed)
+/-- **Former finding C10a (repaired in /repo 396bf5b).**  With the old code shape (`corrFinTested = false`): a referenced *correlation* rule is embedded in finalised (and post-processed)
 form even when the backend does not opt into sub-query finalisation: `convert_correlation_rule`
 finalises unconditionally, only `convert_rule` tests `finalize_correlation_subqueries`. -/
 theorem nested_correlation_always_finalised :
@@ -314,7 +316,7 @@ theorem nested_correlation_always_finalised :
             else exEnv r,
    { exRule with rules := some ["inner".toList, "id2".toList], aliases := [] }, _, rfl, rfl, by decide, by decide⟩
 
-/-- **Finding C10b.**  Without a group-by list the alias targets are not renamed although the pipeline
+/-- **Former finding C10b (repaired in /repo 4061be4).**  With the old code shape (`aliasAlways = false`): without a group-by list the alias targets are not renamed although the pipeline
 renames the field everywhere else (the mapping of aliases sits inside `if rule.group_by is not None`). -/
 theorem aliases_unmapped_without_groupby :
     ∃ (k : Cfg) (env : Env) (stages : List Stage) (r : Rule) (out : Record),
